@@ -2,3 +2,6 @@ pub mod c01;
 pub mod c18;
 pub mod c04;
 pub mod c12;
+pub mod c13;
+pub mod c14;
+pub mod c19;
